@@ -47,7 +47,7 @@ PLAN = {
               "min_counters": {"providers_returned": 800, "contents_read": 800, "deny_runs": 60, "audit_events_seen": 3000,
                                "files_persisted": 200}},
     "thorough": {"shards": 16, "cases": 700, "timeout_s": 3300, "min_evaluations": 60000,
-                 "min_counters": {"providers_returned": 30000}},
+                 "min_counters": {"providers_returned": 12000}},
 }
 _UID = itertools.count()
 CTXS = ["HostContext", "HostArchiveContext", "SosArchiveContext", "SerializedArchiveContext"]
